@@ -196,12 +196,14 @@ namespace ip {
 
 	void udp::socket::abort_send_handlers()
 	{
+		// the handlers are moved into the posted completion: they are cleared
+		// below, before the completion runs
 		if (m_send_handler)
-			post(m_io_service, make_malloc(std::bind(std::ref(m_send_handler)
+			post(m_io_service, make_malloc(std::bind(std::move(m_send_handler)
 				, boost::system::error_code(error::operation_aborted), std::size_t(0))));
 
 		if (m_wait_send_handler)
-			post(m_io_service, make_malloc(std::bind(std::ref(m_wait_send_handler)
+			post(m_io_service, make_malloc(std::bind(std::move(m_wait_send_handler)
 				, boost::system::error_code(error::operation_aborted))));
 
 		m_send_timer.cancel();
@@ -238,10 +240,18 @@ namespace ip {
 			if (m_next_send - now > m_send_queue_time / 2)
 			{
 				// our send queue is too large. Defer
-				m_recv_timer.expires_at(m_next_send + m_send_queue_time / 2);
+				m_send_timer.expires_at(m_next_send + m_send_queue_time / 2);
 
 				m_wait_send_handler = std::move(handler);
-				m_recv_timer.async_wait(make_malloc(std::bind(std::ref(m_wait_send_handler), no_error)));
+				m_send_timer.async_wait([this](boost::system::error_code const& e)
+				{
+					// when the wait was aborted, abort_send_handlers() has
+					// already completed the handler
+					if (e || !m_wait_send_handler) return;
+					auto h = std::move(m_wait_send_handler);
+					m_wait_send_handler = nullptr;
+					h(boost::system::error_code());
+				});
 				return;
 			}
 
